@@ -28,6 +28,9 @@ def run(chk, tier):
         ctor.builder_constructors(chk, F, 'R04.0', cfg)
         efn, epaths, erows = E.eval_dyn_table(chk, F, 'R04.7.table', cfg)
         E.counting_discipline(chk, F, 'R04.7', cfg, efn, erows)
+        # R04.8 'its arguments match that slot's pattern' = the stored matcher's own verdict on this call's inputs
+        from props.c06 import match_inputs
+        match_inputs(chk, F, 'R04.8', cfg)
 
 
 def range_assignment(chk, F, rule, cfg):
@@ -74,9 +77,11 @@ def range_assignment(chk, F, rule, cfg):
         d = dict(v[4]) if v[0] == 'agg' else {}
         rng = strip(d.get('ordered_call_index_range', ('unk', '')))
         if m == 'InAnyOrder':
-            ok = not writes and rng[0] == 'call' and re.search(r'Default>?::default$', rng[1])
+            empty = (rng[0] == 'call' and bool(re.search(r'Default>?::default$', rng[1]))) or \
+                    (rng[0] == 'agg' and dict(rng[4]).get('start') is not None and strip(dict(rng[4])['start']) == strip(dict(rng[4]).get('end', ('unk', ''))))     # (x..x is empty whatever x is)
+            ok = not writes and empty
             chk.ob(rule, 'unordered patterns get no slots and do not advance the cursor', ok, config=cfg, fn=fn, site='unordered', what='unordered pattern touches slots',
-                   found={'writes': len(writes), 'range': show(rng)}, expected='Range::default(), cursor untouched')
+                   found={'writes': len(writes), 'range': show(rng)}, expected='an empty range (Range::default() or x..x), cursor untouched')
             continue
         if exactness(p) not in ('Exact', None):
             chk.ob(rule, 'an ordered pattern that is not exactly quantified cannot be assembled', False, config=cfg, fn=fn, site='inexact', what='inexact ordered pattern accepted', found=exactness(p))
